@@ -4,12 +4,95 @@ SPEC = dict(
     lean_props="SymVerif.Props.C26",
     driver="C26",
     harness="c26.cpp",
-    theorems=[],
-    rule="",
-    not_covered=[],
-    assumptions=[],
-    level_text="",
-    level_note="",
-    technique="",
-    partial=[],
+    theorems=[
+        # value preservation of the constructor functions
+        "SymVerif.C26.matrix_add_value",
+        "SymVerif.C26.matrix_mul_value",
+        "SymVerif.C26.hadamard_value",
+        "SymVerif.C26.transpose_value",
+        "SymVerif.C26.conj_value",
+        "SymVerif.C26.trace_value_partial",
+        "SymVerif.C26.trace_domain_sound",
+        # size and predicates
+        "SymVerif.C26.size_sound",
+        "SymVerif.C26.pred_sound",
+        "SymVerif.C26.is_zero_sound",
+        "SymVerif.C26.is_diagonal_sound",
+        "SymVerif.C26.is_symmetric_sound",
+        "SymVerif.C26.is_lower_sound",
+        "SymVerif.C26.is_upper_sound",
+        "SymVerif.C26.is_real_sound",
+        "SymVerif.C26.is_square_sound",
+        "SymVerif.C26.is_toeplitz_sound",
+        "SymVerif.C26.predWF_of",
+        # the building blocks (kept in the audit so that a weakened lemma is noticed)
+        "SymVerif.MatExpr.matrixAdd_value",
+        "SymVerif.MatExpr.matrixMul_value_aux",
+        "SymVerif.MatExpr.hadamard_value_aux",
+        "SymVerif.MatExpr.transpose_value_aux",
+        "SymVerif.MatExpr.conj_value_aux",
+        "SymVerif.MatExpr.trace_value_aux",
+        "SymVerif.MatExpr.size_sound_aux",
+        "SymVerif.MatExpr.pred_sound_aux",
+        "SymVerif.MatExpr.mulLoop_spec",
+        "SymVerif.MatExpr.flatten_spec",
+    ],
+    rule="one op = one recipe (S-expression tree over identity / zero / diagonal / dense leaves, matrix symbols, "
+         "symbolic dimensions, scalars) built bottom-up through identity_matrix, zero_matrix, diagonal_matrix, "
+         "immutable_dense_matrix, matrix_symbol, matrix_add, matrix_mul, hadamard_product, transpose, conjugate_matrix "
+         "(and trace); the output is the structural dump of the resulting expression, the eight predicate tribools "
+         "and size(). distinct = distinct op lines; non-trivial = every op (each builds at least one matrix object). "
+         "tags: fixed (boundary cases: zero absorption, scalar*identity, Hadamard with identity, every small dense "
+         "shape for is_toeplitz, unknown sizes inside sums, cancelling merges, transpose/conjugate towers, constructor "
+         "edge cases, traces), pairs / triples / unary (all pairs and random triples of a 22-element 2x2 catalogue "
+         "under add / mul / had, all unary towers), dense-shapes (every r x c <= 4 x 4 with structured content), "
+         "tree-concrete, tree-concrete-mismatch (12% wrong sizes per node: DomainError expected), tree-symbols, "
+         "tree-symdims, tree-tiny-entries (entries in -1..1: merges to zero / identity), trace-*",
+    not_covered=[
+        "entries and scalars other than exact numbers (Integer, Rational, Complex): symbolic entries, RealDouble",
+        "dimension arguments other than integers, rationals and plain symbols (e.g. n+1)",
+        "Assumptions objects passed to the predicates",
+        "release builds after a failed canonical-form assertion: where a merge produces a zero / identity / "
+        "diagonal-valued DiagonalMatrix or ImmutableDenseMatrix the verification build throws (model: E:Assert, known "
+        "finding C26-noncanonical-merge) and the theorems say nothing about the non-canonical object a release build "
+        "would go on with",
+        "IdentityMatrix of size 0: is_zero(I_0) = false although the 0x0 matrix is (vacuously) zero; excluded by the "
+        "hypothesis IdentPos and not generated",
+        "matrix_mul without any matrix factor (matrix_mul({2, 3}), matrix_mul({2})): indexes an empty vector / casts a "
+        "Number to MatrixExpr; not executed, model and harness print E:UB",
+        "immutable_dense_matrix(m, n, v) with v.size() != m*n (reads past the vector): rejected as bad-op",
+        "trace results that are symbolic sums (e.g. 2 + Trace(X)): printed as `other`; only their value is checked by the oracle",
+        "hash / compare / __eq__ of the matrix classes (C01/C02)",
+    ],
+    assumptions=[
+        "SymEngine add / mul / sub / conjugate / is_zero / is_real on Integer, Rational, Complex are exact Gaussian-"
+        "rational arithmetic (model type GQ over core Rat); checked only through the correspondence run",
+        "is_zero(sub(a, b)) on dimensions: true for identical arguments, false for two different integers, "
+        "indeterminate otherwise (integer and plain-symbol dimensions)",
+        "the model follows the code as patched by docs/patches/C26_all.patch (see docs/C26.md); on the unpatched tree "
+        "the check reports the corresponding defects",
+    ],
+    level_text="Machine-checked proof (Lean 4 + Mathlib) over an executable model of symengine/matrices/*.cpp, for ALL "
+               "operand lists and ALL interpretations of matrix symbols and dimension symbols: whenever the dense "
+               "computation on the operand values is defined, the result of matrix_add / matrix_mul / hadamard_product "
+               "/ transpose / conjugate_matrix is defined and has that value; every known component of size() is the "
+               "concrete dimension; every definite answer of is_zero / is_diagonal / is_symmetric / is_lower / is_upper "
+               "/ is_real / is_square / is_toeplitz agrees with the concrete matrix; numeric, symbolic-dimension and "
+               "unevaluated results of trace are the trace. The model is tied to the C++ by differential execution of "
+               "generated recipes on the real library (structural dump of the result, all tribools, size) plus an "
+               "independent dense-evaluation oracle in the harness.",
+    level_note="Hypotheses of the predicate theorems (value defined, MatrixAdd nodes canonical, no 0x0 identity) are "
+               "decidable predicates which the driver evaluates on every printed result (markers NONCANONICAL-ADD / "
+               "IDENT0 would appear as correspondence differences). Results E:Assert / E:Domain of the model are "
+               "outside the theorems and covered by the correspondence run only. trace_value_partial says nothing "
+               "about results the model prints as `other`.",
+    technique="semantics valOf/okOf (shape + entry function) under an environment; commutative-ring instance for "
+              "Gaussian rationals; loop invariants for the partition / merge loops of matrix_add, hadamard_product "
+              "(entrywise sums / products split into keep + pending diagonal + pending dense) and matrix_mul (ordered "
+              "chain with a pending merged leaf, identity dropping, associativity and congruence of the matrix "
+              "product on shape-compatible chains, flattening of nested products with scalar extraction); structural "
+              "mutual induction over the nested expression type for transpose / conjugate / trace / size / predicates; "
+              "the four linear predicates (diagonal, symmetric, lower, upper) handled uniformly through a linear "
+              "functional; Toeplitz through constancy along diagonals",
+    partial=["SymVerif.C26.trace_value_partial", "SymVerif.C26.trace_domain_sound"],
 )
